@@ -596,6 +596,29 @@ def parse_sched_op(op):
     return kind, tasks, idx
 
 
+def parse_rb_general(t, i):
+    """a request bound as a flat list of rb tuples ("rbf", arrival, cost) with scalar, multiframe or
+    cost-curve costs (aggregates are flattened)"""
+    k = t[i]
+    if k == "rbf":
+        a, i2 = parse_arr(t, i + 1)
+        if t[i2] == "cc":
+            v, i3 = _p_list(t, i2 + 1)
+            return [("rbf", a, ("cc", v))], i3
+        c, i3 = parse_cost_any(t, i2)
+        return [("rbf", a, c)], i3
+    if k in ("ragg", "rsli"):
+        n = int(t[i + 1])
+        out, i2 = [], i + 2
+        for _ in range(n):
+            x, i2 = parse_rb_general(t, i2)
+            out += x
+        return out, i2
+    if k == "rbox":
+        return parse_rb_general(t, i + 1)
+    raise Unsupported(k)
+
+
 def system_from_op(op):
     """inverse of `system_op` for analysis operation lines with scalar costs and arrival models that
     `parse_arr` understands (aggregated interfering demands are flattened: their demands add up);
@@ -610,10 +633,10 @@ def system_from_op(op):
         sd["tasks"] = ("ragg", [rb(a, c) for a, c in x])
         return sd
     if kind in ("fp_p", "fp_fl", "edf_p", "edf_fl"):
-        x, i = parse_rb_flat(t, i)
+        x, i = parse_rb_general(t, i)
         if len(x) != 1:
             raise Unsupported("aggregate tua")
-        sd["tua"] = rb(*x[0])
+        sd["tua"] = x[0]
     else:
         a, i = parse_arr(t, i)
         sd["arr"], sd["C"] = a, int(t[i]); i += 1
@@ -633,13 +656,13 @@ def system_from_op(op):
             c, d = int(t[i]), int(t[i + 1]); i += 2
             others.append({"rb": rb(a, c), "arr": a, "C": c, "D": d, "seg": c})
             continue
-        x, i = parse_rb_flat(t, i)
+        x, i = parse_rb_general(t, i)
         d, sg = 0, 1
         if kind.startswith("edf"):
             d = int(t[i]); i += 1
             if kind != "edf_p":
                 sg = int(t[i]); i += 1
-        others += [{"rb": rb(a, c), "arr": a, "C": c, "D": d, "seg": sg} for a, c in x]
+        others += [{"rb": r_, "arr": r_[1], "C": (r_[2][1] if r_[2][0] == "sc" else 1), "D": d, "seg": sg} for r_ in x]
     sd["others"] = others
     if i != len(t) - 1:
         raise Unsupported("trailing tokens")
@@ -1573,11 +1596,16 @@ def own_demand_steps_with_arrivals(op):
         return ok, j2
     try:
         if t[0] == "ros_ch":
-            # last, prefix, full chain: the search space comes from the full chain's demand
-            _, i = parse_rb_flat(t, i)
-            _, i = parse_rb_flat(t, i)
-            own, _ = parse_rb_flat(t, i)
-            return len(own) == 1 and own[0][1] >= 1
+            # last, prefix, full chain: the search space comes from the full chain's demand, which steps
+            # exactly where its arrival curves step if every job of every component has a positive cost
+            def pos(c):
+                return (c[0] == "sc" and c[1] >= 1) or (c[0] == "mf" and bool(c[1]) and min(c[1]) >= 1) or \
+                    (c[0] == "cc" and bool(c[1]) and c[1][0] >= 1 and all(b > a for a, b in zip(c[1], c[1][1:]))) or \
+                    (c[0] == "cbox" and pos(c[1]))
+            _, i = parse_rb_general(t, i)
+            _, i = parse_rb_general(t, i)
+            full, _ = parse_rb_general(t, i)
+            return len(full) >= 1 and all(pos(r_[2]) for r_ in full)
         ok, _ = one_rbf_positive(i)
         return ok
     except (Unsupported, ValueError, IndexError):
